@@ -7,7 +7,7 @@ import NanoVerif.Gen.ProgramDone
   Mirrors (line numbers of /repo at the time of writing):
     src/program/solver.cpp:25-39     ::make_smax                                   -> `makeSmax`
     src/program/solver.cpp:41-47     ::normalize(A, b, min_norm)                   -> `normalizePair`
-    src/program/solver.cpp:70-98     program_t::program_t (three normalisations)   -> `normalizeObj/Eq/Ineq`, `normalize`
+    src/program/solver.cpp:70-98     program_t::program_t (three normalisations)   -> `normalizePair` (three times), `normalize`
     src/program/solver.cpp:106-115   program_t::feasible                           -> `feasible`   (GENERATED: Gen/ProgramDone.lean)
     src/program/solver.cpp:149-188   program_t::update                             -> `objective`, `gradObj`, `update`
     src/program/state.cpp:18-21      solver_state_t::residual                      -> `residual`
